@@ -96,10 +96,6 @@ Definition x_zero : xstr := mkX [] 0 0.
 Definition x_printf_alloc (bs : list Z) : xstr := x_cat x_zero bs.
 (* iwxstr_new_printf: iwxstr_create_empty() then iwxstr_printf_va *)
 Definition x_new_printf (bs : list Z) : xstr := x_cat (x_create AUNIT) bs.
-(* iwxstr_printf_va / iwxstr_insert_vaprintf format into char buf[1024] and go to the heap when the text does not fit
-   (len >= sizeof(buf)); true = the malloc'ed buffer was used (and is freed before returning) *)
-Definition x_fmt_heap (len : nat) : bool := (1024 <=? len).
-
 (* ---------------------------------------------------------------- user data: iwxstr_user_data_set / get / detach, and the
    destructor call of iwxstr_destroy / iwxstr_destroy_keep_ptr.  Data are tokens; the log holds the destructor calls. *)
 Record xud := mkXU { xu_data : option nat; xu_fn : bool; xu_log : list (option nat) }.
